@@ -110,7 +110,7 @@ FIXED = [
                                 st("v3", "arrange", "v2", keys=[[C("id"), False, None, 0], [C("x"), False, "last", 0]]),
                                 st("v4", "slice_head", "v3", n=8, offset=0), st("v5", "group_by", "v4", cols=[{"c": "g"}]),
                                 st("v6", "summarize", "v5", items=[["n", F("count_star")]])], "result": "v6"}),
-    ("F21-polars-window-order-names", "C05", "several ordering expressions over one column",
+    ("F21-polars-window-order-names", "C05", "polars window functions with several ordering expressions over one column",
      "Polars: partition_by= plus two arrange= expressions over one column raised DuplicateError",
      {"tables": [TG], "steps": [S(), st("v1", "mutate", "v0", items=[["w", F("shift", C("x"), L(1), partition_by=[C("g")],
                                                                            arrange=[[F("mod", C("id"), L(2)), True, None, 0], [C("id"), False, None, 0]])]])],
@@ -440,6 +440,37 @@ FIXED += [
      {"tables": [TG], "steps": [S(), st("v1", "mutate", "v0", items=[["zk", L(1)]]),
                                 st("v2", "select", "v1", cols=[{"c": "zk"}, {"c": "x"}]),
                                 st("v3", "slice_head", "v2", n=2, offset=1)], "result": "v3", "validate": "check"}),
+]
+
+FIXED += [
+    ("F62-sql-ordered-aggregate-constant-arrange", "C19", "SQL ordered aggregate whose arrange terms are all constant",
+     "SQL: str.join(arrange=<literal column>) raised TypeError on SQLite / PostgreSQL and rendered an empty ORDER BY on "
+     "MSSQL: the constant ORDER BY terms are dropped and none was left",
+     {"tables": [TB], "steps": [S(), st("v1", "mutate", "v0", items=[["zk", L(1)]]),
+                                st("v2", "summarize", "v1", items=[["j", F("str.join", C("s"), L(","), arrange=[[C("zk"), False, None, 0]])]])],
+      "result": "v2", "validate": "check"}),
+]
+
+FIXED += [
+    ("F63-sql-union-int-float", "C12", "SQL union of an integer and a float column casts both operands to float",
+     "SQLite: union of an Int and a Float column (static type Float) exported Int64 when only integer rows survived: the "
+     "operands were not cast to the common type",
+     {"tables": [src([["id", "int64"], ["y", "float64"]], [[1, 0.5], [2, 1.5]])],
+      "steps": [S(), st("v1", "mutate", "v0", items=[["id", C("y")]]),
+                {"out": "v2", "verb": "union", "in": "v0", "right": "v1", "distinct": False},
+                st("v3", "filter", "v2", preds=[F("eq", C("y"), L(0.5))]),
+                st("v4", "filter", "v3", preds=[F("eq", C("id"), L(1))])], "result": "v4", "validate": "check"}),
+    ("F64-sqlite-int-division-decimal", "C12", "SQLite quotient of two integers is a float, not a ten-digit decimal",
+     "SQLite: Int / Int was typed NUMERIC by SQLAlchemy: exported as Decimal(38, 10) (ten digits) for a static Float",
+     {"tables": [TB], "steps": [S(), st("v1", "mutate", "v0", items=[["z", F("truediv", C("a"), L(3))], ["w", F("truediv", C("a"), C("id"))]])],
+      "result": "v1"}),
+]
+
+FIXED += [
+    ("F21b-polars-rank-order-names", "C05", "polars rank / dense_rank with several ordering expressions over one column",
+     "Polars: rank(arrange=[x, x < 2]) raised DuplicateError (struct fields named after the root column)",
+     {"tables": [TG], "steps": [S(), st("v1", "mutate", "v0", items=[["w", F("rank", arrange=[[C("x"), False, "last", 0], [F("lt", C("x"), L(2)), False, "last", 0]])]])],
+      "result": "v1"}),
 ]
 
 
